@@ -664,6 +664,13 @@ func (m *Mirror) handleFuturePrevoteProofs(
 	// including public keys.
 	pubKeys := vlReq.VRV.ValidatorSet.PubKeys
 
+	if len(pubKeys) > 0 && p.PubKeyHash != string(vlReq.VRV.ValidatorSet.PubKeyHash) {
+		// The kernel gave us the validator set for this height,
+		// so as in the non-future case, refuse a message claiming a different set.
+		// Otherwise the votes would be stored under the claimed hash.
+		return tmconsensus.HandleVoteProofsBadPubKeyHash
+	}
+
 	if len(pubKeys) == 0 {
 		// The mirror didn't have the public keys loaded in memory,
 		// so read them from storage.
@@ -1031,6 +1038,13 @@ func (m *Mirror) handleFuturePrecommitProofs(
 	// Sometimes the kernel is able to assign the validator set,
 	// including public keys.
 	pubKeys := vlReq.VRV.ValidatorSet.PubKeys
+
+	if len(pubKeys) > 0 && p.PubKeyHash != string(vlReq.VRV.ValidatorSet.PubKeyHash) {
+		// The kernel gave us the validator set for this height,
+		// so as in the non-future case, refuse a message claiming a different set.
+		// Otherwise the votes would be stored under the claimed hash.
+		return tmconsensus.HandleVoteProofsBadPubKeyHash
+	}
 
 	if len(pubKeys) == 0 {
 		// The mirror didn't have the public keys loaded in memory,
